@@ -8,7 +8,7 @@ def cigarLetters : List Nat := [77, 73, 68, 78, 83, 72, 80, 61, 88]
 /-- letters shown for sequence codes 0..15 -/
 def seqLetters : List Nat := [61, 65, 67, 77, 71, 82, 83, 86, 84, 87, 89, 72, 75, 68, 66, 78]
 /-- does a single op of this code advance the reference? (codes 0..8) -/
-def consumes : List Bool := [true, false, true, true, false, false, false, true, false]
+def consumes : List Bool := [true, false, true, true, false, false, false, true, true]
 /-- does refID = -1 select the LAST reference name (shipped rule)? -/
 def oldChrom : Bool := false
 /-- does `n_cigar_op * 4` wrap at 2^16 (shipped rule)? -/
